@@ -165,7 +165,12 @@ func findTypeNameViolation(
 	pos token.Pos,
 ) *PackageOnlyViolation {
 	if obj.IsAlias() {
-		named, ok := types.Unalias(obj.Type()).(*types.Named)
+		// The alias may also stand for a pointer to the defined type: type P = *T
+		denoted := types.Unalias(obj.Type())
+		if ptr, ok := denoted.(*types.Pointer); ok {
+			denoted = types.Unalias(ptr.Elem())
+		}
+		named, ok := denoted.(*types.Named)
 		if !ok || named.Obj().Pkg() == nil {
 			return nil
 		}
